@@ -64,6 +64,11 @@ func scribbleNames(v []string) {
 	}
 }
 
+type fillArgs struct {
+	l0, x, n int
+	a, c     string
+}
+
 type sessArgs struct {
 	id, sid int
 	sys     []byte
@@ -84,6 +89,7 @@ func driverHist(c *Ctx) {
 		var objs []hobj
 		var script []func() ([]interface{}, []interface{})
 		var pendingSess []sessArgs
+		var pendingFill *fillArgs
 		c.emit(i, J{"ev": "reset"})
 		items := func() []int {
 			var r []int
@@ -195,12 +201,45 @@ func driverHist(c *Ctx) {
 				pendingSess = pendingSess[1:]
 				op = J{"k": "setsession", "id": ps.id + 1, "sid": ps.sid, "sys": bytesJ(ps.sys)}
 				addMsg(func() *ast.DataMessage { return objs[ps.id].msg.SetSessionIDAndSystemBytes(ps.sid, ps.sys) }, -1)
+			case len(script) == 0 && pendingFill != nil:
+				// last step of the scripted pattern below: the repeat count, the item for the list's variable, and a value
+				// for a variable *inside that item* in one call - the item stays the caller's
+				pf := pendingFill
+				pendingFill = nil
+				if pf.l0 < len(objs) && pf.x < len(objs) && objs[pf.l0].item != nil && objs[pf.x].item != nil {
+					sig := map[string]interface{}{"...": pf.n, pf.a: objs[pf.x].item, pf.c: 7}
+					sj := []interface{}{J{"k": chars(pf.a), "v": projItem(objs[pf.x].item)}, J{"k": chars(pf.c), "v": intJ(7)}}
+					op = J{"k": "fillitem", "id": pf.l0 + 1, "sigma": sj, "cnt": []interface{}{J{"k": chars("..."), "n": pf.n}}}
+					addItem(func() ast.ItemNode { return objs[pf.l0].item.FillVariables(sig) })
+				} else {
+					op = J{"k": "observeitem", "id": 1}
+				}
 			case len(script) > 0:
 				// the next step of a scripted sharing pattern (see below)
 				args, desc := script[0]()
 				script = script[1:]
 				op = J{"k": "newlist", "args": desc}
 				addItem(func() ast.ItemNode { return ast.NewListNode(args...) })
+			case kind == 2 && g.pick(5) == 0:
+				// scripted: M = <L <U1 c>>, X = <L M <B 1>>, L0 = <L a ... b>, then L0 filled with {...: n, a: X, c: 7}
+				a, b, cn := g.newVar(), g.newVar(), g.newVar()
+				op = J{"k": "newitem"}
+				addItem(func() ast.ItemNode { return ast.NewUintNode(1, cn) })
+				if res["outcome"] == "new" {
+					ui := len(objs) - 1
+					mi := ui + 1
+					script = append(script, func() ([]interface{}, []interface{}) {
+						return []interface{}{objs[ui].item}, []interface{}{J{"id": ui + 1}}
+					})
+					script = append(script, func() ([]interface{}, []interface{}) {
+						return []interface{}{objs[mi].item, cn + "x"}, []interface{}{J{"id": mi + 1}, J{"var": chars(cn + "x")}}
+					})
+					script = append(script, func() ([]interface{}, []interface{}) {
+						return []interface{}{a, "...", b}, []interface{}{J{"var": chars(a)}, J{"ell": -1}, J{"var": chars(b)}}
+					})
+					pendingFill = &fillArgs{l0: mi + 2, x: mi + 1, a: a, c: cn, n: g.pick(3)}
+					_ = b
+				}
 			case kind == 1 && g.pick(3) == 0:
 				// one list of k fresh variables that becomes the first element of two further lists, each with
 				// variables of its own behind it: what the second list is built from must not show in the first
@@ -245,6 +284,12 @@ func driverHist(c *Ctx) {
 						desc = append(desc, J{"id": id + 1})
 					}
 				}
+				if len(args) >= 1 && g.pick(3) == 0 {
+					// a repeat marker behind the first item or later
+					pos := 1 + g.pick(len(args))
+					args = append(args[:pos], append([]interface{}{"..."}, args[pos:]...)...)
+					desc = append(desc[:pos], append([]interface{}{J{"ell": -1}}, desc[pos:]...)...)
+				}
 				op = J{"k": "newlist", "args": desc}
 				addItem(func() ast.ItemNode { return ast.NewListNode(args...) })
 				for k := range args {
@@ -253,7 +298,8 @@ func driverHist(c *Ctx) {
 			case kind == 2:
 				id := its[g.pick(len(its))]
 				sig, sj := histSigma(g, objs[id].item.Variables(), objs[id].item)
-				op = J{"k": "fillitem", "id": id + 1, "sigma": sj}
+				cj := histRich(g, objs, its, objs[id].item, sig, &sj)
+				op = J{"k": "fillitem", "id": id + 1, "sigma": sj, "cnt": cj}
 				addItem(func() ast.ItemNode { return objs[id].item.FillVariables(sig) })
 				for k := range sig {
 					sig[k] = 77
@@ -344,7 +390,8 @@ func driverHist(c *Ctx) {
 			case kind == 10:
 				id := ms[g.pick(len(ms))]
 				sig, sj := histSigma(g, objs[id].msg.Variables(), ast.VerifDataItem(objs[id].msg))
-				op = J{"k": "fillmsg", "id": id + 1, "sigma": sj}
+				cj := histRich(g, objs, its, ast.VerifDataItem(objs[id].msg), sig, &sj)
+				op = J{"k": "fillmsg", "id": id + 1, "sigma": sj, "cnt": cj}
 				addMsg(func() *ast.DataMessage { return objs[id].msg.FillVariables(sig) }, -1)
 				for k := range sig {
 					sig[k] = "scribbled"
@@ -378,6 +425,79 @@ func driverHist(c *Ctx) {
 		}
 		c.count("hist.histories")
 	}
+}
+
+// histRich adds to a fill what makes it more than a plain substitution: repeat counts for the ellipses of the item, and -
+// for a variable of a list - an item of the pool that has variables of its own, together with a value for one of
+// *those* (which the fill must leave alone: the inserted item belongs to the caller).
+func histRich(g *Gen, objs []hobj, its []int, it ast.ItemNode, sig map[string]interface{}, sj *[]interface{}) []interface{} {
+	cj := []interface{}{}
+	var listVars []string
+	for _, name := range it.Variables() {
+		if ellRe.MatchString(name) {
+			if g.pick(3) != 0 {
+				n := g.pick(3)
+				sig[name] = n
+				cj = append(cj, J{"k": chars(name), "n": n})
+			}
+			continue
+		}
+	}
+	var walk func(n *ast.VerifNode)
+	walk = func(n *ast.VerifNode) {
+		if n.Kind != "L" {
+			return
+		}
+		for name := range n.Vars {
+			if !ellRe.MatchString(name) {
+				listVars = append(listVars, name)
+			}
+		}
+		for _, k := range n.Items {
+			if k != nil {
+				walk(k)
+			}
+		}
+	}
+	walk(ast.VerifProject(it))
+	sortStrings(listVars)
+	if len(listVars) > 0 && g.pick(3) == 0 {
+		var donors []int
+		for _, k := range its {
+			if len(objs[k].item.Variables()) > 0 {
+				donors = append(donors, k)
+			}
+		}
+		if len(donors) > 0 {
+			v := listVars[g.pick(len(listVars))]
+			x := objs[donors[g.pick(len(donors))]].item
+			replaced := false
+			for k, e := range *sj {
+				if string(unJ(e.(J)["k"].([]int))) == v {
+					(*sj)[k] = J{"k": chars(v), "v": projItem(x)}
+					replaced = true
+				}
+			}
+			if !replaced {
+				*sj = append(*sj, J{"k": chars(v), "v": projItem(x)})
+			}
+			sig[v] = x
+			var inner []string
+			for _, n := range x.Variables() {
+				if _, taken := sig[n]; !taken && !ellRe.MatchString(n) {
+					inner = append(inner, n)
+				}
+			}
+			if len(inner) > 0 {
+				isig, isj := histSigma(g, inner[:1], x)
+				for k, val := range isig {
+					sig[k] = val
+				}
+				*sj = append(*sj, isj...)
+			}
+		}
+	}
+	return cj
 }
 
 // histSigma chooses in-domain, variable-free values for a random subset of the variables.
